@@ -205,7 +205,6 @@ func (m *Muxer) WriteData(d *MuxerData) (int, error) {
 		pktLen := 1 + mpegTsPacketHeaderSize // sync byte + header
 		pkt := Packet{
 			Header: PacketHeader{
-				ContinuityCounter:         uint8(ctx.cc.inc()),
 				HasAdaptationField:        writeAf,
 				HasPayload:                false,
 				PayloadUnitStartIndicator: false,
@@ -271,6 +270,9 @@ func (m *Muxer) WriteData(d *MuxerData) (int, error) {
 					pkt.AdaptationField.StuffingLength = bytesAvailable
 				}
 			}
+
+			// Only a packet that is written consumes a continuity counter value
+			pkt.Header.ContinuityCounter = uint8(ctx.cc.inc())
 
 			n, err = writePacket(m.bitsWriter, &pkt, m.packetSize)
 			if err != nil {
